@@ -18,7 +18,8 @@ K_C05 = kh("c05_mirror", ["c05_opt_u8", "c05_opt_u16", "c05_opt_u32", "c05_opt_u
                           "c05_opt_res_u8_u32", "c05_res_u8_u64", "c05_res_u64_u8", "c05_res_i32_unit",
                           "c05_res_unit_unit", "c05_res_f32_char", "c05_res_opt_u16_bool", "c05_ver_u8_u64",
                           "c05_ver_u32_unit", "c05_ver_unit_unit", "c05_ver_unit_i16", "c05_ver_f64_bool",
-                          "c05_ver_opt_u8_val3", "c05_ver_val9_u32", "c05_res_u64_val17"])
+                          "c05_ver_opt_u8_val3", "c05_ver_val9_u32", "c05_res_u64_val17"]) \
+    + kh("c15_list", ["c15_option_bool_elements"], "quick", 1200)    # List<Option<bool>> built in Rust: strides of the stored representation
 
 
 LEX3 = ["c06_ipv6_3", "c06_ipv4_3", "c06_two_char_3", "c06_one_char_3", "c06_as_number_3", "c06_hex_number_3", "c06_number_3",
@@ -33,11 +34,13 @@ K_C09 = kh("c09_grammar", ["c09_number_ascii_4", "c09_hex_asn_ascii_4", "c09_ide
 K_C10 = kh("c10_builtins", ["c10_prefix_new_total_v4", "c10_prefix_new_total_v6"], "quick", 600)
 K_C17 = kh("c17_strings", ["c17_bytes_view_2", "c17_bytes_get_3", "c17_lines_get_2"], "quick", 1800) \
     + kh("c17_strings", ["c17_bytes_view_3"], "thorough", 3600)
-K_C20 = kh("c20_memory", ["c20_memory_write_read", "c20_memory_rejects", "c20_memory_dangling_frame"], "quick", 1200)
-K_C15 = kh("c15_list", ["c15_compute_capacity", "c15_eq_distinct_rust", "c15_eq_alias", "c15_eq_distinct_erased_len", "c15_eq_rust_lengths"], "quick", 1200)
-K_C16 = kh("c16_sched", ["c16_get_vs_push1_linearizable", "c16_len_vs_push1_linearizable"], "quick", 2400) \
+K_C20 = kh("c20_memory", ["c20_memory_write_read", "c20_memory_rejects", "c20_memory_dangling_frame", "c20_memory_offset_twice"], "quick", 1200)
+K_C15 = kh("c15_list", ["c15_compute_capacity", "c15_eq_distinct_rust", "c15_eq_alias", "c15_eq_distinct_erased_len", "c15_eq_rust_lengths", "c15_option_bool_elements"], "quick", 1200)
+K_C16 = kh("c16_sched", ["c16_get_vs_push1_linearizable", "c16_len_vs_push1_linearizable",
+                         "c16_full_get_vs_push1_before_lock", "c16_full_get_vs_push1_after_release"], "quick", 2400) \
     + kh("c16_sched", ["c16_get_vs_push4_realloc_site1"], "thorough", 5400)
-THOROUGH_MEM = {"c16_sched::c16_get_vs_push4_realloc_site1": 48}
+THOROUGH_MEM = {"c16_sched::c16_get_vs_push4_realloc_site1": 48, "c16_sched::c16_full_get_vs_push1_before_lock": 24,
+                "c16_sched::c16_full_get_vs_push1_after_release": 24}
 
 
 def c15_generated():
@@ -194,19 +197,23 @@ def c15(res):
 
 
 def c16(res):
-    # the relocation schedule is proved only in the thorough tier (48 GB, ~25 min); in the quick tier it is run as a
-    # refutation attempt: on a tree with the stale-pointer window CBMC finds the counterexample in 2-5 minutes
-    r = kani_part(res, K_C16, hunt=[("c16_sched::c16_get_vs_push4_realloc_site1", 540, 24)])
+    # the relocation schedules start from a full list built directly (hook full_u64_list): one push by the other thread moves
+    # the storage, and CBMC proves them in ~7 min / < 20 GB. The older formulation (4 pushes from a 1-element list) needs
+    # 48 GB / 25 min and stays in the thorough tier.
+    r = kani_part(res, K_C16)
     finish_k(res, r,
-             "schedule = symbolic input: at every schedule point (hook H3) of the running operation a kani::any() bit decides whether the other "
-             "thread's whole operation runs there; CBMC's deallocated-object checks + linearisability against the array model",
+             "schedule = symbolic input: at the schedule points of the running operation (hook H3 before each lock, hook H7 after each release) a "
+             "kani::any() bit decides whether the other thread's whole operation runs there; CBMC's deallocated-object checks + linearisability against the array model",
              [{"harness": "c16_get_vs_push1_linearizable", "obligation": "get(i), i <= 3 symbolic, on a 2-element list vs one push by the other thread at any "
                "schedule point: result = value under the order of the critical sections"},
-              {"harness": "c16_get_vs_push4_realloc_site1 (thorough, 48 GB)", "obligation": "get(0) vs 4 pushes (reallocation) at the schedule point of List::get: "
-               "no access through the old buffer, element unchanged"}],
+              {"harness": "c16_full_get_vs_push1_after_release", "obligation": "get(i), i <= 3 symbolic, on a full 4-element list (len == capacity) vs one push "
+               "(reallocation 4 -> 8) at the point after get's lock release (and, `_before_lock`, at List::get's own schedule point): no access through the old buffer, element unchanged"},
+              {"harness": "c16_get_vs_push4_realloc_site1 (thorough, 48 GB)", "obligation": "get(0) on a 1-element list vs 4 pushes (reallocation) at the schedule point of List::get"}],
              TRUST_K + ["sequentialisation: preempting operations run atomically (the per-operation mutex guarantees this for the critical sections)",
                         "preemption depth 1, one preempting thread, one storage", "stub: Mutex::lock -> try_lock / DEADLOCK",
-                        "true parallelism and weak-memory effects outside the claim; ffi::list_get schedules over budget (timeouts) - not claimed"])
+                        "hook H7: under the cfg the list's Mutex is a wrapper that raises a schedule point after every release; hook full_u64_list builds the state 'len == capacity == 4' directly",
+                        "true parallelism and weak-memory effects outside the claim; ffi::list_get, to_vec, ==, concat, contains/index schedules over budget (to_vec from a full list: "
+                        "out of memory at 20-30 GB) - not claimed"])
 
 
 def c17(res):
